@@ -31,11 +31,12 @@ ASSUMPTIONS = [
 ]
 CASE_LIMIT_S = 30
 
-CONDS = [True, False, 0, 1, -2, 0.5, 3]
+CONDS = [True, False, 0, 1, -2, 0.5, 3, 1e-16, -4e-16, 5e-324, 1e-300, 1e300]
 CELLS = {'A1': True, 'A2': False, 'A3': 0, 'A4': 5, 'A5': -1.5, 'A6': None,
          'B1': True, 'B2': None, 'B3': 1, 'C1': False, 'C2': 0, 'C3': None,
-         'D1': 2, 'D2': True, 'D3': 7}
-RANGES = ['B1:B3', 'C1:C3', 'D1:D3', 'A1:A2', 'A3:A6', 'B1:C2']
+         'D1': 2, 'D2': True, 'D3': 7, 'E1': 1e-20, 'E2': 0, 'E3': -3e-17}
+RANGES = ['B1:B3', 'C1:C3', 'D1:D3', 'A1:A2', 'A3:A6', 'B1:C2', 'E1:E3',
+          'E2:E3']
 POISONS = ['div0', 'unknown', 'cycle']
 
 
@@ -53,7 +54,7 @@ def _cond(d, depth, sp):
     if depth <= 0 or k < 3:
         if d.pick(2):
             return ['c', d.choice(CONDS)]
-        return ['r', d.choice(['A1', 'A2', 'A3', 'A4', 'A5', 'A6'])]
+        return ['r', d.choice(['A1', 'A2', 'A3', 'A4', 'A5', 'A6', 'E1', 'E3'])]
     if k < 5:
         return ['cmp', d.choice(['<', '>', '=', '<>', '<=', '>=']),
                 ['c', d.int(-3, 3)], ['r', d.choice(['A3', 'A4', 'A5'])]]
